@@ -1,4 +1,5 @@
 """C04 - MSM4/MSM7 messages decode to exactly the encoded header and cell data."""
+import re
 import common
 import framing
 import gen
@@ -7,8 +8,8 @@ import msmgen
 
 def run(res, args):
     res.rule = ("abstract messages (all 14 types; mask shapes empty, 1x1, 1x32, 64x1, 8x8, sparse, dense; every field at "
-                "min / max / zero / random; multiple-message flag set and clear; trailing fields all zero; padding 0..12 and "
-                "longer) encoded by the extracted specification encoder, decoded by the real decoders directly and through "
+                "min / max / zero / random; multiple-message flag set and clear; trailing fields all zero; padding 0..12, "
+                "longer, and up to the 1023-byte limit of the length field) encoded by the extracted specification encoder, decoded by the real decoders directly and through "
                 "handler.GetMessage+Analyse; plus a sweep padding 0..12 x cells 0..10; non-trivial = at least one signal cell")
     res.assumptions = ["the frame generator is the extracted, verified-by-construction specification encoder (MsmSpec.msm_frame)"]
     res.trusted = ["harness: cmd/impl decode; ocaml driver msmspec/decode", "extraction: ExtrOcamlBasic only"]
@@ -34,6 +35,24 @@ def run(res, args):
         res.corr_ok = False
         res.corr_notes.append("msmspec failed: %s" % e)
         return res.finish()
+    # padded up to the length limit: the same messages with as many zero bytes as bring the message to 1017..1023
+    # bytes (the largest values of the 10-bit length field)
+    extra = []
+    for (t, m), line in list(zip(specs, lines))[:40 * mult]:
+        parts = dict(p.split("=", 1) for p in line.split(" ", 3))
+        if parts["wf"] != "1":
+            continue
+        base = len(parts["frame"]) // 2 - 6 - m["pad"]
+        for target in rng.sample([1016, 1017, 1018, 1019, 1020, 1021, 1022, 1023], 2):
+            if target - base >= 0:
+                m2 = dict(m, pad=target - base)
+                extra.append((re.sub(r"pad=\d+", "pad=%d" % (target - base), t), m2))
+    if extra:
+        xl, e = common.run_lines(common.MODEL_BIN, "msmspec", ["msmspec " + t for t, _ in extra], timeout=3000)
+        if not e and xl is not None and len(xl) == len(extra):
+            specs = specs + extra
+            lines = lines + xl
+            res.count("padded to a message length of 1016..1023 bytes", len(extra))
     cases, meta = [], []
     for (t, m), line in zip(specs, lines):
         parts = dict(p.split("=", 1) for p in line.split(" ", 3))
